@@ -36,6 +36,7 @@ pub fn def() -> CheckDef {
         exec,
         components: "real code: ctr and belt-ctr crates (StreamCipherSeekCore impls) and cipher's StreamCipherCoreWrapper seek/position logic; stub: block cipher in most runs, real AES-128/Magma/Kuznyechik/BelT in the rest; no reference model (twin routes of the real code)",
         assumptions: &["try_current_pos may fail in the band T::MAX - bs < p <= T::MAX (the wrapper multiplies before it subtracts); the property only demands an error instead of a truncated value", "sampling, not proof"],
+        nondet_is_violation: false,
     }
 }
 
